@@ -14,6 +14,7 @@
 import Golib.HMap.PlainStep
 import Golib.HMap.Types
 import Golib.HMap.Multi
+import Golib.HMap.Enum
 
 set_option linter.unusedSectionVars false
 
@@ -99,6 +100,33 @@ theorem intint_wire (hash : Int → Nat) (thr : Nat → Nat) (d : PDesc Int Int)
   let w := PMap.intint_wire thr cap h hlen hr hok
   ⟨w.1, w.2.1⟩
 
+/-! ### enumerator objects: HasMoreElements / Next -/
+
+/-- the enumerator object `(table, index, entry)` with its skip loop
+    `for entry == nil && index > 0 { index--; entry = table[index] }`: calling HasMoreElements / Next until exhausted
+    on an enumerator opened on a table that is not modified yields exactly `entries` — hence (with `enumerate_once`)
+    every stored element exactly once; the key and value enumerators are its projections -/
+theorem enumerator_protocol (hash : K → Nat) (d : PDesc K V) (m : PMap K V) (s : PS K V) (h : PMap.Rel hash d m s) :
+    PEnum.drain m.tab m.count m.tab.openEnum = m.tab.entries ∧
+    (PEnum.drain m.tab m.count m.tab.openEnum).Perm s.ents ∧
+    ((PEnum.drain m.tab m.count m.tab.openEnum).map Prod.fst).Nodup := by
+  have hp := PMap.entries_perm h
+  have hd : PEnum.drain m.tab m.count m.tab.openEnum = m.tab.entries :=
+    Table.drain_open m.tab m.count (by rw [hp.length_eq, h.count]; exact Nat.le_refl _)
+  rw [hd]
+  exact ⟨rfl, hp, (PMap.enumerate_once h.tab).1⟩
+
+/-- `Next` is defined exactly when `HasMoreElements` answers true -/
+theorem enumerator_hasMore_next (t : Table K V) (e : PEnum K V) : PEnum.hasMore t e = (PEnum.next t e).isSome := by
+  unfold PEnum.hasMore PEnum.next
+  simp only
+  cases hc : (PEnum.advance t e).entry <;> simp
+
+/-- an enumerator in any state yields exactly what is left: the rest of the current chain, then the buckets below `index` -/
+theorem enumerator_remaining (t : Table K V) (e : PEnum K V) (fuel : Nat) (h : (PEnum.remaining t e).length ≤ fuel) :
+    PEnum.drain t fuel e = e.entry ++ (List.range e.index).reverse.flatMap t.bucket :=
+  PEnum.drain_eq t fuel e h
+
 /-! ### several live containers: no aliasing -/
 
 /-- **no_aliasing.**  In a pool of live maps an operation addressed to slot `i` — including `PutAll(other)`
@@ -133,10 +161,38 @@ theorem add_result_partial (d : PDesc K V) (hreg : d.addFreshNew = false) (s : P
     simp only [Bool.false_eq_true, if_false]
     cases hg : AL.get s.ents k <;> simp [hreg]
 
+/-- complete characterisation (D17): the result of `add`, for every descriptor, key and state -/
+theorem add_result_exact (d : PDesc K V) (s : PS K V) (k : K) (v : V) :
+    (PS.add d s k v).2 =
+      if d.refuse k then none else
+      match AL.get s.ents k with
+      | some old => some old
+      | none => if d.addFreshNew then some v else none := by
+  unfold PS.add PS.putWith
+  cases hr : d.refuse k with
+  | true => simp
+  | false =>
+    simp only [Bool.false_eq_true, if_false]
+    cases hg : AL.get s.ents k <;> simp
+
+/-- … so `add` answers the previous value (like `put`) **iff** the deviation flag is off, or the key is refused, or it is present -/
+theorem add_result_iff (d : PDesc K V) (s : PS K V) (k : K) (v : V) :
+    (PS.add d s k v).2 = (if d.refuse k then none else AL.get s.ents k) ↔
+      (d.addFreshNew = false ∨ d.refuse k = true ∨ (AL.get s.ents k).isSome) := by
+  rw [add_result_exact]
+  cases hr : d.refuse k with
+  | true => simp
+  | false =>
+    simp only [Bool.false_eq_true, if_false]
+    cases hg : AL.get s.ents k with
+    | some old => simp
+    | none =>
+      cases hf : d.addFreshNew <;> simp
+
 /-- … IntIntMap (D17): Add(5,7) on an empty map returns 7, a second Add(5,1) returns 7 as well (now the
     previous value), and the stored value is 8 -/
 theorem finding_D17 :
-    let d : PDesc Int Int := { comb := fun a b => a + b, addFreshNew := true }
+    let d : PDesc Int Int := { comb := fun a b => a + b, veq := fun a b => a == b, addFreshNew := true }
     (PS.add d {} 5 7).2 = some 7 ∧ (PS.add d (PS.add d {} 5 7).1 5 1).2 = some 7 ∧
     AL.get (PS.add d (PS.add d {} 5 7).1 5 1).1.ents 5 = some 8 := by decide
 
@@ -149,9 +205,25 @@ theorem contains_after_put_partial (d : PDesc K V) (hr : ∀ k, d.refuse k = fal
   simp only [if_true] at this
   simp [PS.step, hb k, this]
 
+/-- complete characterisation (D15): after `put k v` the key is reported as contained **iff** the descriptor is not blind
+    for `k` and either does not refuse `k` or `k` was present before -/
+theorem contains_after_put_iff (d : PDesc K V) (s : PS K V) (k : K) (v : V) :
+    (PS.step d (PS.put d s k v).1 (.containsKey k)).2 = .bool true ↔
+      d.blind k = false ∧ (d.refuse k = false ∨ (AL.get s.ents k).isSome) := by
+  cases hr : d.refuse k with
+  | true =>
+    have hp : (PS.put d s k v).1 = s := by simp [PS.put, hr]
+    rw [hp]
+    simp [PS.step]
+  | false =>
+    obtain ⟨l, mx⟩ := s
+    have := map_get_put l k k v d hr mx
+    simp only [if_true] at this
+    simp [PS.step, this]
+
 /-- … StringSet (D15): Put("") is ignored and Contains("") answers false -/
 theorem finding_D15_StringSet :
-    let d : PDesc String Unit := { comb := fun _ _ => (), refuse := fun k => k == "", blind := fun k => k == "" }
+    let d : PDesc String Unit := { comb := fun _ _ => (), veq := fun _ _ => true, refuse := fun k => k == "", blind := fun k => k == "" }
     (PS.step d (PS.put d {} "" ()).1 (.containsKey "")).2 = .bool false ∧ (PS.put d {} "" ()).1.ents = [] := by
   decide
 
@@ -164,12 +236,12 @@ theorem irregular_types :
 
 /-! ### non-vacuity -/
 
-example : PMap.Rel (fun k : Int => k.toNat) ({ comb := fun a b => a + b } : PDesc Int Int)
+example : PMap.Rel (fun k : Int => k.toNat) ({ comb := fun a b => a + b, veq := fun a b => a == b } : PDesc Int Int)
     (PMap.new (fun c => c * 3 / 4) 0 : PMap Int Int) {} := PMap.Rel.new 0
 
 /-- growth from capacity 1 with a constant hash (every key collides), removal, enumeration -/
 example :
-    (PMap.run (fun _ : Int => 3) (fun c => c / 2) ({ comb := fun a b => a + b } : PDesc Int Int) (PMap.new (fun c => c / 2) 1)
+    (PMap.run (fun _ : Int => 3) (fun c => c / 2) ({ comb := fun a b => a + b, veq := fun a b => a == b } : PDesc Int Int) (PMap.new (fun c => c / 2) 1)
       [.put 1 10, .put 2 20, .put 3 30, .add 2 5, .remove 1, .get 2, .size, .entries]).2
       = [.none, .none, .none, .val 20, .val 10, .val 25, .nat 2, .ents [(3, 30), (2, 25)]] := by decide
 
